@@ -18,7 +18,11 @@ def main():
         props = have if allp else ([own] if own in have else [])
         if not props:
             return i, None
-        return i, run(os.path.join(VERIF, "seeded", i, "patch.diff"), props)
+        r = run(os.path.join(VERIF, "seeded", i, "patch.diff"), props)
+        # one retry on a crashed check (resource exhaustion under parallel load is not a verdict)
+        if r and any(v.get("rc") not in (0, 1) for v in r.values()):
+            r = run(os.path.join(VERIF, "seeded", i, "patch.diff"), props)
+        return i, r
     res = {}
     with ThreadPoolExecutor(8) as ex:
         for i, r in ex.map(one, ids):
@@ -28,7 +32,8 @@ def main():
                 print(f"{i:8s} (no check yet)"); continue
             o = r.get(own, {})
             others = [p for p, v in r.items() if p != own and v["rc"] == 1]
-            print(f"{i:8s} own={'FIRED ' if o.get('rc') == 1 else 'silent'} {' '.join(o.get('rules', [])[:3])[:150]}" + (f"  | also: {','.join(others)}" if others else ""), flush=True)
+            state = 'FIRED ' if o.get('rc') == 1 else ('silent' if o.get('rc') == 0 else f"CRASH({o.get('note', '')[-120:]})")
+            print(f"{i:8s} own={state} {' '.join(o.get('rules', [])[:3])[:150]}" + (f"  | also: {','.join(others)}" if others else ""), flush=True)
     json.dump(res, open(os.path.join(VERIF, "selftest", "seeded_results.json"), "w"), indent=1)
     caught = sum(1 for i, r in res.items() if r and r.get(i.split('-')[0], {}).get("rc") == 1)
     print(f"caught by own property: {caught}/{sum(1 for r in res.values() if r)}")
